@@ -1,7 +1,7 @@
 """C13 — MPMC FIFO is a linearizable queue (structural part: hazard typestate + publication order)."""
 from core import strip, is_field, order_ge, key_str, key_mentions
 from facts import AnalysisBroken
-from rules import (nodeset, callpred, atom_from, reach)
+from rules import (through_local, nodeset, callpred, atom_from, reach)
 import hazard
 
 EXPLANATION = (
@@ -46,7 +46,7 @@ def run(ctx):
         if not (strip(c.value).k == "DeclRefExpr" and strip(c.value).did == newp["did"]):
             bad = bad or "the CAS installs `%s`" % c.value.text
         lk = links[0]
-        if push.guarded(lk.node, lambda leaf, pol: strip(leaf) is c.node and pol is True) is not None:
+        if push.guarded(lk.node, lambda leaf, pol: through_local(push, leaf) is c.node and pol is True) is not None:
             bad = bad or "tail->prev is written without having won the CAS"
         if not (strip(lk.value).k == "DeclRefExpr" and strip(lk.value).did == newp["did"]):
             bad = bad or "tail->prev is set to `%s`" % lk.value.text
@@ -73,7 +73,7 @@ def run(ctx):
         bad = "shape not recognised"
     else:
         c = cas[0]
-        succ = lambda leaf, pol: strip(leaf) is c.node and pol is True
+        succ = lambda leaf, pol: through_local(pop, leaf) is c.node and pol is True
         for v in vals:
             if pop.find_path(c.node, lambda n: n is v, barrier=lambda n: n.k == "AtomicExpr" and n is not c.node and "load" in (n.aop or "") ) is not None:
                 bad = bad or "prev->value is read after the CAS on head"
